@@ -90,6 +90,40 @@ contract('IOManager._read_packet_from_device',
 WF_MSG = 'msg.command >= 0 and msg.command < 2**32 and msg.magic == 2**32 - 1 - msg.command'
 FRAME = 'hdr(msg.command, val(msg.arg0), val(msg.arg1), len(msg.data), bsum(msg.data) % 2**32, msg.magic) + msg.data'
 
+WR_DUR = 'implies(%s, G.now - old(G.now) <= %s + %s + %s)' % (TNN, R, T, CPU)
+SEND_DUR = 'implies(%s, G.now - old(G.now) <= 2 * (%s + %s) + %s)' % (TNN, R, T, CPU)
+
+contract('IOManager._write_bytes_to_device',
+         real=real('_write_bytes_to_device'),
+         params={'self': 'obj:IOManager', 'data': 'bytes', 'adb_info': 'obj:AdbInfo'},
+         variants=[{'data': 'bytes'}, {'data': 'bytearray'}],
+         props=['C15', 'C02', 'C11', 'C06', 'C12'],
+         requires=[('C06', 'transport-owned', 'G.held_transport')],
+         modifies=['G.wire', 'G.nwrites', 'G.peer_rx', 'G.short', 'G.now', 'G.cpu'],
+         ensures=[('C15', 'peer-receives-every-byte-in-order', 'G.peer_rx == old(G.peer_rx) + data'),
+                  ('C02,C15', 'writes-only-when-there-is-something-to-write', 'implies(len(data) == 0, G.nwrites == old(G.nwrites) and G.wire == old(G.wire))'),
+                  ('C02,C15', 'at-least-one-write-otherwise', 'implies(len(data) > 0, G.nwrites > old(G.nwrites))'),
+                  ('C11', 'duration', WR_DUR),
+                  'G.now >= old(G.now) and G.cpu >= old(G.cpu)'],
+         raises={'AdbTimeoutError': [('C11', 'timeout-only-after-deadline', 'G.now - old(G.now) > adb_info.read_timeout_s'),
+                                     ('C11', 'duration', WR_DUR), ('C15', 'a-prefix-was-delivered', 'len(G.peer_rx) < len(old(G.peer_rx)) + len(data)'),
+                                     'G.now >= old(G.now) and G.cpu >= old(G.cpu)'],
+                 '*': [('C11', 'duration', WR_DUR), 'G.now >= old(G.now) and G.cpu >= old(G.cpu)']},
+         call_asserts={'Transport.bulk_write': [('C11', 'timeout-passed', 'same(_arg_transport_timeout_s, adb_info.transport_timeout_s)'),
+                                                ('C15', 'resends-exactly-the-unsent-remainder', '_arg_data == _0data[len(_0data) - len(data):] and len(_arg_data) > 0')]},
+         loops={0: dict(invariant=[
+             ('C15,C11,C02', 'G.peer_rx + data == old(G.peer_rx) + _0data and len(data) <= len(_0data)'),
+             ('C15,C11,C02', 'total == len(_0data) and data == _0data[len(_0data) - len(data):]'),
+             ('C02,C15', 'implies(len(data) < len(_0data), G.nwrites > old(G.nwrites)) and G.nwrites >= old(G.nwrites)'),
+             ('C02,C15', 'implies(len(_0data) == 0, G.nwrites == old(G.nwrites) and G.wire == old(G.wire))'),
+             ('C11', 'implies(len(data) > 0, G.now - start <= %s) and implies(%s, G.now - start <= %s + %s)' % (R, TNN, R, T)),
+             ('C11', 'G.now >= start and start >= old(G.now) and G.cpu >= old(G.cpu) and start - old(G.now) <= G.cpu - old(G.cpu)'),
+         ])},
+         doc='writes the unsent remainder until the transport has accepted every byte; bounded by the read deadline')
+
+WF_MSG = 'msg.command >= 0 and msg.command < 2**32 and msg.magic == 2**32 - 1 - msg.command'
+FRAME = 'hdr(msg.command, val(msg.arg0), val(msg.arg1), len(msg.data), bsum(msg.data) % 2**32, msg.magic) + msg.data'
+
 contract('IOManager._send',
          real=real('_send'),
          params={'self': 'obj:IOManager', 'msg': 'obj:Msg', 'adb_info': 'obj:AdbInfo'},
@@ -97,16 +131,17 @@ contract('IOManager._send',
          props=['C02', 'C15', 'C11', 'C06', 'C12'],
          requires=[WF_MSG, ('C06', 'transport-owned', 'G.held_transport')],
          modifies=['G.wire', 'G.nwrites', 'G.peer_rx', 'G.short', 'G.now', 'G.cpu'],
-         ensures=[('C02', 'header-then-payload', 'G.wire == old(G.wire) + ' + FRAME),
-                  ('C02', 'payload-write-iff-nonempty', 'G.nwrites == old(G.nwrites) + ite(len(msg.data) > 0, 2, 1)'),
-                  ('C15', 'peer-receives-whole-message', 'G.peer_rx == old(G.peer_rx) + ' + FRAME),
-                  ('C11', 'duration', 'implies(%s, G.now - old(G.now) <= 2 * %s + %s)' % (TNN, T, CPU)),
+         ensures=[('C02,C15', 'peer-receives-header-then-payload-completely', 'G.peer_rx == old(G.peer_rx) + ' + FRAME),
+                  ('C02', 'something-was-written', 'G.nwrites > old(G.nwrites)'),
+                  ('C11', 'duration', SEND_DUR),
                   'G.now >= old(G.now) and G.cpu >= old(G.cpu)'],
-         raises={'struct.error': [('C02', 'unframeable-writes-nothing', 'G.wire == old(G.wire) and G.nwrites == old(G.nwrites)'),
+         raises={'struct.error': [('C02', 'unframeable-writes-nothing', 'G.wire == old(G.wire) and G.nwrites == old(G.nwrites) and G.peer_rx == old(G.peer_rx)'),
                                   'G.now >= old(G.now) and G.cpu >= old(G.cpu)'],
-                 '*': [('C11', 'duration', 'implies(%s, G.now - old(G.now) <= 2 * %s + %s)' % (TNN, T, CPU)),
-                       'G.now >= old(G.now) and G.cpu >= old(G.cpu)']},
-         call_asserts={'Transport.bulk_write': [('C11', 'timeout-passed', 'same(_arg_transport_timeout_s, adb_info.transport_timeout_s)')]},
+                 'AdbTimeoutError': [('C11', 'duration', SEND_DUR), 'G.now >= old(G.now) and G.cpu >= old(G.cpu)'],
+                 '*': [('C11', 'duration', SEND_DUR), 'G.now >= old(G.now) and G.cpu >= old(G.cpu)']},
+         call_asserts={'IOManager._write_bytes_to_device': [('C02', 'header-first-then-payload-only-if-nonempty',
+                                                             'ite(G.peer_rx == old(G.peer_rx) and G.nwrites == old(G.nwrites), len(_arg_data) == 24, '
+                                                             'same(_arg_data, msg.data) and len(msg.data) > 0)')]},
          doc='header then payload, payload write omitted iff empty; the peer receives the whole frame or the call raises')
 
 
@@ -190,15 +225,14 @@ contract('IOManager.send',
          props=['C02', 'C15', 'C11', 'C06', 'C12', 'C04'],
          requires=[WF_MSG, ('C06,C12', 'no-lock-held-on-entry', UNLOCKED)],
          modifies=['G.wire', 'G.nwrites', 'G.peer_rx', 'G.short', 'G.now', 'G.cpu'],
-         ensures=[('C02,C04', 'one-frame', 'G.wire == old(G.wire) + ' + FRAME),
-                  ('C15', 'peer-receives-whole-message', 'G.peer_rx == old(G.peer_rx) + ' + FRAME),
+         ensures=[('C02,C04,C15', 'peer-receives-exactly-one-whole-frame', 'G.peer_rx == old(G.peer_rx) + ' + FRAME),
                   ('C06,C12', 'locks-released', UNLOCKED),
-                  ('C11', 'duration', 'implies(%s, G.now - old(G.now) <= 2 * %s + %s)' % (TNN, T, CPU)),
+                  ('C11', 'duration', SEND_DUR),
                   'G.now >= old(G.now) and G.cpu >= old(G.cpu)'],
-         raises={'struct.error': [('C02', 'unframeable-writes-nothing', 'G.wire == old(G.wire)'), ('C06,C12', 'locks-released', UNLOCKED),
+         raises={'struct.error': [('C02', 'unframeable-writes-nothing', 'G.peer_rx == old(G.peer_rx) and G.nwrites == old(G.nwrites)'), ('C06,C12', 'locks-released', UNLOCKED),
                                   'G.now >= old(G.now) and G.cpu >= old(G.cpu)'],
-                 '*': [('C06,C12', 'locks-released', UNLOCKED),
-                       ('C11', 'duration', 'implies(%s, G.now - old(G.now) <= 2 * %s + %s)' % (TNN, T, CPU)),
+                 'AdbTimeoutError': [('C06,C12', 'locks-released', UNLOCKED), ('C11', 'duration', SEND_DUR), 'G.now >= old(G.now) and G.cpu >= old(G.cpu)'],
+                 '*': [('C06,C12', 'locks-released', UNLOCKED), ('C11', 'duration', SEND_DUR),
                        'G.now >= old(G.now) and G.cpu >= old(G.cpu)']})
 
 contract('IOManager.close',
